@@ -695,6 +695,44 @@ pub fn tokio_task_spaces(tier: &str, o: TaskOpts) -> Vec<Space> {
     )]
 }
 
+/// C08 inside a tokio task on graphs wide enough to exhaust the cooperative budget with one
+/// operation per function (more than 128 functions completing between two polls): the signal
+/// sent at any one point of a batched schedule.
+pub fn wide_interrupt_task_spaces(tier: &str) -> Vec<Space> {
+    let ks: &[usize] = if tier == "thorough" { &[130, 140, 200, 260] } else { &[140, 210] };
+    let mut specs = vec![];
+    for &k in ks {
+        specs.push(Spec::plain(k + 2, &[(k, k + 1)]));
+        specs.push(family_spec(Family::FanOut, k));
+        specs.push(family_spec(Family::FanPair, k / 2));
+        specs.push(family_spec(Family::Comb, k / 2));
+    }
+    let count = specs.len();
+    vec![space(
+        &format!("{count} wide graphs of about {ks:?} functions polled inside a tokio task (budget 128 / 127), everything in flight completing between two polls, signal sent at any one point"),
+        specs,
+        Some(1),
+        |s: &Spec| {
+            let mut c = vec![];
+            for api in [Api { kind: Kind::ForEach, mutable: false, with: true }, Api { kind: Kind::TryForEach, mutable: true, with: true }] {
+                for (strat, include) in [(Strat::Finish, true), (Strat::NextN(2), false)] {
+                    for b in [128u16, 127] {
+                        let mut r = RunCfg::plain(api, s.n);
+                        r.base = Base::Batch;
+                        r.strat = strat;
+                        r.include = include;
+                        r.interrupt = true;
+                        r.imm_choice = false;
+                        r.task_budget = Some(b);
+                        c.push(JobCfg::S(r));
+                    }
+                }
+            }
+            c
+        },
+    )]
+}
+
 /// Second run of a two-run history on one graph value: an earlier completed run (default
 /// schedule) in the opposite / the same order precedes the explored run.
 pub fn cfgs_after_earlier_run(n: usize, apis: &[Api], with_streams: bool) -> Vec<JobCfg> {
@@ -1346,6 +1384,7 @@ pub fn c08(tier: &str) -> (Vec<Space>, Focus) {
         cfgs_interrupt(s.n, &conc_with(), &[None], &FWD, &STRATS_LIGHT)
     }));
     v.extend(wide_interrupt_spaces(tier, true));
+    v.extend(wide_interrupt_task_spaces(tier));
     v.push(space("StreamOpts builder methods called in every order (interrupt armed), shapes 1<=n<=3", shapes_upto(1, 3, false), None, |s| {
         cfgs_opts_orders(s.n, &Api::all_with(), &[None, Some(1)], true)
     }));
